@@ -266,10 +266,6 @@ def check_c10(payload):
         out["skip"] = True
         return out
     root = max(nodes)
-    if nodes[root][1] == "atom":
-        # a circuit that is a single literal: the formula object does not record the sign of its root
-        out["skip"] = True
-        return out
     var_of = dict((i, n.identifier) for i, (n, t) in nodes.items() if t == "atom")
     vars_memo = {}
 
@@ -382,6 +378,101 @@ def check_c10(payload):
     return out
 
 
+def check_c10_api(seed):
+    """A ground program built through the LogicDAG interface (plain Python numbers and Constants as weights, 0.0 and 1.0
+    included; conjunctions/disjunctions over literals; 0-2 TrueConstraints on literals or compound nodes, which may
+    contradict each other) -> CNF -> d-DNNF.  The circuit evaluated with the probability semiring must give, for every
+    query, the weighted model count of the CNF computed by enumeration (with the weights of the CNF); an unsatisfiable
+    CNF, or one without a model of positive weight, must be reported as inconsistent."""
+    import random
+    from problog.logic import Term, Constant
+    from problog.formula import LogicDAG
+    from problog.cnf_formula import CNF
+    from problog.ddnnf_formula import DDNNF
+    from problog.constraint import TrueConstraint
+    from problog.evaluator import SemiringProbability
+    rng = random.Random(seed)
+    lf = LogicDAG()
+    descr = []
+    atoms = []
+    for i in range(rng.randint(1, 4)):
+        w = rng.choice([0.0, 1.0, 0.3, 0.5, 0.25, Constant(0.0), Constant(0.4), Constant(1.0), 0, 1])
+        atoms.append(lf.add_atom("a%d" % i, w))
+        descr.append("a%d = add_atom('a%d', %r)" % (i, i, w))
+    nodes = list(atoms)
+    for j in range(rng.choice([0, 0, 1, 2, 3])):
+        kids = [rng.choice(nodes) * rng.choice([1, 1, -1]) for _ in range(rng.randint(2, 3))]
+        if len(set(abs(k) for k in kids)) < len(kids):
+            continue
+        op = rng.choice(["and", "or"])
+        k = lf.add_and(kids) if op == "and" else lf.add_or(kids)
+        if k in (0, None):
+            continue
+        descr.append("n%d = add_%s(%s)" % (k, op, kids))
+        nodes.append(k)
+    qs = []
+    for k in rng.sample(nodes, rng.randint(1, len(nodes))):
+        lit = k if rng.random() < 0.8 else -k
+        name = "q%s%d" % ("n" if lit < 0 else "", abs(k))
+        lf.add_query(Term(name), lit)
+        qs.append(name)
+        descr.append("add_query(%s, %d)" % (name, lit))
+    for _ in range(rng.choice([0, 0, 1, 1, 2])):
+        lit = rng.choice(nodes) * rng.choice([1, -1])
+        lf.add_constraint(TrueConstraint(lit))
+        descr.append("add_constraint(TrueConstraint(%d))" % lit)
+    src = "LogicDAG built by: " + "; ".join(descr)
+    out = dict(src=src, violations=[], nontrivial=False, skip=False)
+    force_atoms = rng.random() < 0.2
+    if force_atoms:
+        out["src"] += "; CNF.create_from(dag, force_atoms=True) (as the MPE task does)"
+    try:
+        cnf = CNF.create_from(lf, force_atoms=True) if force_atoms else CNF.create_from(lf)
+    except Exception as e:      # noqa
+        out["skip"] = True
+        return out
+    nv = cnf.atomcount
+    clauses = [[int(x) for x in (c[1:] if isinstance(c[0], bool) or c[0] is None else c)] for c in cnf._clauses
+               if c and c[0] != "c"]
+    wc = cnf.get_weights()
+
+    def wt(v, val):
+        w = wc.get(v)
+        if w is None or w is True:
+            return 1.0
+        if isinstance(w, tuple):
+            return float(w[0] if val else w[1])
+        return float(w) if val else 1.0 - float(w)
+    z = 0.0
+    num = dict((str(n), 0.0) for n, k in cnf.queries())
+    qk = [(str(n), k) for n, k in cnf.queries()]
+    for bits in itertools.product([False, True], repeat=nv):
+        a = dict(zip(range(1, nv + 1), bits))
+        if not all(any((a[abs(l)] if l > 0 else not a[abs(l)]) for l in cl) for cl in clauses):
+            continue
+        w = 1.0
+        for v in a:
+            w *= wt(v, a[v])
+        z += w
+        for n, k in qk:
+            if k == 0 or (k is not None and (a[abs(k)] if k > 0 else not a[abs(k)])):
+                num[n] += w
+    expected = ("inconsistent",) if z < 1e-12 else ("ok", dict((n, num[n] / z) for n in num))
+    try:
+        nnf = DDNNF.create_from(cnf)
+        r = nnf.evaluate(semiring=SemiringProbability())
+        got = ("ok", dict((str(k), float(v)) for k, v in r.items()))
+    except Exception as e:      # noqa
+        c = classify_exception(e)
+        got = ("inconsistent",) if "InconsistentEvidence" in c else ("exc", c)
+    out["nontrivial"] = expected[0] == "ok" and any(0.0 < v < 1.0 for v in expected[1].values())
+    if expected[0] != got[0] or (expected[0] == "ok" and (set(expected[1]) != set(got[1]) or
+                                                          any(abs(expected[1][k] - got[1][k]) > 1e-9 for k in expected[1]))):
+        out["violations"].append(("api:weighted-model-count", "the circuit evaluates to %s, enumeration over the CNF (%d variables, "
+                                  "clauses %s, weights %s) gives %s" % (got, nv, clauses, wc, expected)))
+    return out
+
+
 def run(pid, tier, seed):
     n = 8000 if tier == "thorough" else 1200
     ps = progs.programs(seed * 15485863 + int(pid[1:]), n, max_choices=8, evidence=True)
@@ -416,4 +507,21 @@ def run(pid, tier, seed):
         col.case(r["src"], nontrivial=r["nontrivial"])
         for name, text in r["violations"]:
             col.violation("bounded:%s:%s" % (pid.lower(), name), "%s on program:\n%s" % (text, r["src"]), dict(program=r["src"]))
-    return [col.result()]
+    res = [col.result()]
+    if pid == "C10":
+        m = 20000 if tier == "thorough" else 3000
+        col2 = Collector("C10:ddnnf-api-validation",
+                         "%d seeded ground programs built through the LogicDAG interface (1-4 atoms with weights 0.0, 1.0, 0, 1, "
+                         "0.25-0.5 as Python numbers and as Constants; 0-3 conjunctions/disjunctions over literals; queries on "
+                         "positive and negative literals; 0-2 TrueConstraints that may contradict each other), CNF -> d-DNNF "
+                         "(dsharp, or the clause-free shortcut); probability-semiring evaluation of the circuit vs weighted model "
+                         "count of the CNF by enumeration; an unsatisfiable or zero-weight CNF must be reported inconsistent; "
+                         "non-trivial = an expected probability strictly between 0 and 1" % m)
+        for r in pmap("bounded.c09.check_c10_api", [seed * 86028121 + i for i in range(m)]):
+            if r.get("skip"):
+                continue
+            col2.case(r["src"], nontrivial=r["nontrivial"])
+            for name, text in r["violations"]:
+                col2.violation("bounded:c10:%s" % name, "%s\n%s" % (text, r["src"]), dict(construction=r["src"]))
+        res.append(col2.result())
+    return res
